@@ -1,16 +1,18 @@
 (* C14 - The parser is total: any text yields a tree and located errors, never a crash.
-   Statements only; proofs in Proofs/LexProofs.v and Proofs/RenderProofs.v.
+   Statements only; proofs in Proofs/LexProofs.v, Proofs/ParserSound.v, Proofs/ParserComplete.v and
+   Proofs/RenderProofs.v.
 
    PARTIAL. The parser that runs is ANTLR-generated code with ANTLR's error recovery; neither is
    modelled. What is proved is about (a) the reference lexer and parser of Model/Lexer.v and
-   Model/Parser.v - total Gallina functions that decide which texts are syntactically valid, against
+   Model/Parser.v - total Gallina functions PROVED to decide exactly the language of the declarative
+   grammar Spec/Grammar.v (C14_accepts_iff_valid: sound and complete, fuel always sufficient), against
    which acceptance (zero errors iff valid) is compared input by input - (b) the exactness of the
    positions the reference lexer computes, and (c) the model of Range.ShowOnSource: rendering cannot
    panic on a well-formed range. That the implementation itself never panics, that its error
    positions lie inside the text and that its rendering of them succeeds is observed on every
    generated input (predicate evaluated in Coq on the dumped errors), not proved. *)
 From Coq Require Import Lia.
-From NS Require Import Lexer Render LexProofs RenderProofs.
+From NS Require Import Lexer Parser Grammar Render LexProofs RenderProofs ParserSound ParserComplete.
 Open Scope Z_scope.
 
 (* every lexical error of the reference lexer is reported at a position inside the text: on an
@@ -32,7 +34,23 @@ Theorem C14_render_safe : forall (lens : list Z) (r : range),
   Forall (fun x => 0 <= x) lens -> range_wf lens r -> show_on_source_ok lens r = true.
 Proof. exact render_safe. Qed.
 
+(* "every syntactically valid script is accepted, every other input is rejected": a text is VALID when it
+   lexes without error into a token sequence that the grammar (Spec/Grammar.v: one constructor per
+   alternative of Numscript.g4, nothing about how to parse) derives. The reference parser accepts
+   exactly the valid texts - for every text, of any length and nesting depth: soundness
+   (ParserSound.v), completeness with the lookahead decisions justified by FIRST / FOLLOW facts of
+   the grammar and the initial fuel shown sufficient (ParserComplete.v). Accepted = Parsed, or
+   ParsedOutOfRange when some integer literal does not fit the implementation's int (finding F-D10). *)
+Theorem C14_accepts_iff_valid : forall text, parse_text text <> Rejected <-> valid_text text.
+Proof. exact accepts_iff_valid. Qed.
+
+(* at the level of tokens: the reference parser decides the grammar *)
+Theorem C14_parser_decides_grammar : forall ts p, DProgram ts p <-> exists n, parse_tokens ts = Some (p, n).
+Proof. exact parser_decides. Qed.
+
 Print Assumptions C14_lexical_errors_inside.
+Print Assumptions C14_accepts_iff_valid.
+Print Assumptions C14_parser_decides_grammar.
 Print Assumptions C14_render_safe.
 
 Example C14_example :
